@@ -83,13 +83,15 @@ def register(w):
                note="Path=./name or a .cap file overrides only the fields it sets; extended attributes of the block are copied too (loop over the block's attribute names)",
                props=["C08"])
     register2(w)
+    register3(w)
+    register4(w)
 
 
 def register2(w):
     w.contract(U_ + "MergeLinkFiles", selfclass=["UMNDirHandler"],
                requires=[], modifies=["self.fileentries"], raises={},
-               loops={0: dict(invariant=["True"], havoc=[]),
-                      1: dict(invariant=["True"], havoc=["self.fileentries"])},
+               loops={0: dict(invariant=["True"], havoc=[], types={"fileentriesdict": "dict[str,obj:GopherEntry]"}),
+                      1: dict(invariant=["True"], havoc=["self.fileentries"], types={"fileentriesdict": "dict[str,obj:GopherEntry]"})},
                at={"after:self.fileentries.append(linkentry)": [
                        ("assert", "(not linkentry.needsmerge) or (linkentry.selector not in fileentriesdict)")],
                    "after:self.mergeentries(fileentriesdict[linkentry.selector], linkentry)": [
@@ -105,3 +107,54 @@ def register2(w):
                props=["C08"])
     c = w.contracts.pop((U_ + "MergeLinkFiles", "UMNDirHandler"), None)
     w.contracts[(U_ + "MergeLinkFiles", "UMNDirHandler")] = c
+
+
+def register3(w):
+    w.fields("UMNDirHandler", selectorbase="str")
+    old = w.contracts.pop((U_ + "processLinkFile", "UMNDirHandler"))
+    w.contract(U_ + "processLinkFile", selfclass=["UMNDirHandler"], globals=GROOT,
+               params={"filename": "str", "capfilepath": "opt[str]"},
+               requires=list(old.requires), modifies=["self.entry", MROOT],
+               raises={"OSError": True, "IndexError": True, "ValueError": True}, returns="list[obj:LinkEntry]",
+               ghost={"open_files": "trace", "opened_paths": "trace"},
+               loops={0: dict(invariant=["fd.pos <= len(fd.content)", "0 <= fd.pos", "len(ghost.open_files) == 1"],
+                              decreases="len(fd.content) - fd.pos", havoc=["fd.pos"], types={"linkentries": "list[obj:LinkEntry]"})},
+               ensures=["len(ghost.open_files) == 0"],
+               ensures_internal=["ghost.opened_paths == [filename]"],
+               on_raise={"*": ["len(ghost.open_files) == 0"]},
+               note="one LinkEntry per block that had a path, in file order; the link file is read afresh on every call (exactly one vfs.open of `filename`, closed on every exit) - "
+                    "so a regenerated listing reflects the current metadata; terminates (every non-final getLinkItem call consumes a line)",
+               props=["C08", "C01", "C10", "C03", "C20"])
+    HOSTINV = ["entry.host is None or entry.host != '+'", "fd.pos <= len(fd.content)", "0 <= fd.pos"]
+    w.contract(U_ + "getLinkItem", selfclass=["UMNDirHandler"],
+               params={"fd": "obj:TFile", "capfilepath": "opt[str]"}, globals=GROOT,
+               requires=["fd.pos <= len(fd.content)", "S.secure(self.selector)", "self.selector.startswith('/')",
+                         "G.rootpath is None or G.rootpath == '' or G.rootpath == self.config.get('pygopherd', 'root')",
+                         "S.abs_root(self.config.get('pygopherd', 'root'))", "self.vfs.config is self.config"],
+               modifies=["fd.pos", "self.entry", MROOT], raises={"IndexError": True, "ValueError": True},
+               returns="tuple[str,opt[obj:LinkEntry]]",
+               ensures=["result[0] == 'stop' or result[0] == 'continue'",
+                        "fd.pos <= len(fd.content)", "fd.pos >= old(fd.pos)",
+                        "implies(result[0] == 'continue', fd.pos > old(fd.pos))",
+                        "implies(result[1] is not None, result[1].host is None or result[1].host != '+')",
+                        "implies(capfilepath is not None, result[1] is not None)"],
+               loops={0: dict(invariant=HOSTINV + ["fd.pos >= old(fd.pos)", "implies(capfilepath is not None, done['path'] == 1)",
+                                                  "nextstep == 'continue'"],
+                              havoc=["fd.pos"], decreases="len(fd.content) - fd.pos"),
+                      1: dict(invariant=["fd.pos <= len(fd.content)", "0 <= fd.pos", "fd.pos >= ghost.p1"], havoc=["fd.pos"], entry_ghost={"p1": "fd.pos"})},
+               note="IndexError/ValueError are declared for malformed content only ('Type=' without a character, non-numeric 'Port='): the property quantifies over well-formed link files; "
+                    "Host=+ / Port=+ leave host/port unset (= this server); every call that does not hit end of file consumes at least one line (termination of processLinkFile)",
+               props=["C08", "C03"])
+
+
+def register4(w):
+    """Malformed link-file content ('Type=' without a character, non-numeric 'Port=') may raise IndexError /
+    ValueError out of the parser; the properties quantify over well-formed content, so the callers declare it."""
+    MAL = {"IndexError": True, "ValueError": True}
+    for q, cls in ((U_ + "prep_initfiles_canaddfile", "UMNDirHandler"), (H + "dir.py::DirHandler.prep_initfiles", "DirHandler"),
+                   (H + "dir.py::DirHandler.prep_initfiles", "UMNDirHandler"), (H + "dir.py::DirHandler.prepare", "DirHandler"),
+                   (U_ + "prepare", "UMNDirHandler")):
+        c = w.contracts.get((q, cls))
+        if c is not None:
+            c.raises = dict(c.raises, **MAL)
+            c.note = (c.note + "; " if c.note else "") + "IndexError/ValueError only for malformed link-file content (outside the properties' quantifier)"
